@@ -666,7 +666,24 @@ func extractWALFileInfo(baseDir string) (map[string]*walFilesInfo, error) {
 		filesInfo[key].walFiles = append(filesInfo[key].walFiles, fileName)
 	}
 
+	// os.ReadDir sorts by file name: "..._10.wal" comes before "..._2.wal". Replay in the order the files were written.
+	for _, info := range filesInfo {
+		sort.SliceStable(info.walFiles, func(i, j int) bool {
+			return walFileIndex(info.walFiles[i]) < walFileIndex(info.walFiles[j])
+		})
+	}
+
 	return filesInfo, nil
+}
+
+// index of a datapoint WAL file: "shardID_<shard>_segID_<segID>_blockID_<blockNo>_<index>.wal"
+func walFileIndex(fileName string) uint64 {
+	parts := strings.Split(strings.TrimSuffix(fileName, ".wal"), "_")
+	idx, err := strconv.ParseUint(parts[len(parts)-1], 10, 64)
+	if err != nil {
+		return math.MaxUint64
+	}
+	return idx
 }
 
 func deleteWalFile(dirPath, fileName string) error {
